@@ -268,7 +268,7 @@ def run(tier: str, seed: int, workers: int):
     plans = (
         [("q", False, 2), ("q", True, 1), ("q2", False, 1), ("rep", False, 1), ("ovl", False, 1), ("ord", False, 1)]
         if tier == "quick"
-        else [("t", False, 2), ("q", True, 2), ("q2", True, 1), ("t", True, 1), ("rep", True, 2), ("rep2", False, 2), ("ovl", True, 2), ("ord", False, 2)]
+        else [("t", False, 2), ("q", True, 2), ("q2", True, 1), ("t", True, 1), ("rep", True, 1), ("rep2", False, 1), ("ovl", True, 1), ("ord", False, 2)]
     )
     bounds = {}
     for cfg, instant, bound in plans:
